@@ -187,6 +187,7 @@ Proof.
     + inv_bind H. destruct a as [out sc1]. discriminate.
   - destruct lhs; try discriminate. inv_bind H. destruct a as [out sc1]. injection H as _ <-. apply (iter_preserves _ _ _ _ _ _ _ _ Ha Nsv N1 N2).
   - destruct lhs; try discriminate. inv_bind H. destruct a as [out sc1]. injection H as _ <-. apply (iter_preserves _ _ _ _ _ _ _ _ Ha Nsv N1 N2).
+  - destruct lhs; try discriminate. inv_bind H. destruct a as [out sc1]. injection H as _ <-. apply (iter_preserves _ _ _ _ _ _ _ _ Ha Nsv N1 N2).
 Qed.
 
 (* the end of a transform: scope variable and "." *)
@@ -266,17 +267,19 @@ Proof.
     rewrite <- E1. pose proof (carry _ _ _ E1 N2) as N3.
     destruct (getB cv); apply (Hev _ _ _ _ _ H); tauto.
   - (* ECall *)
-    rewrite lets_call in N1. unfold eval_call in H.
+    rewrite lets_call in N1. rewrite eval_call_eq in H.
     destruct (assoc String.eqb fn vs) as [vw|].
     + destruct (negb (Nat.eqb (List.length (v_params vw)) (List.length args))); [injection H as _ <-; reflexivity|].
       inv_bind H. destruct a as [avs sc1]. inv_bind H. destruct a as [r sc2]. injection H as _ <-.
       apply (seq_preserves _ _ _ _ _ Ha N1 N2).
-    + destruct (is_dot_func fn) as [f|]; [|discriminate].
-      destruct (String.eqb f "count"); [|discriminate].
-      destruct args as [|a0 args]; [discriminate|].
-      inv_bind H. destruct a as [c sc1]. cbn [lets_list flat_map] in N1. rewrite in_app_iff in N1.
-      rewrite <- (Hev _ _ _ _ _ Ha) by tauto.
-      destruct c; try discriminate; injection H as _ <-; reflexivity.
+    + destruct (is_dot_func fn) as [f|].
+      * unfold call_dot in H. destruct (String.eqb f "count"); [|discriminate].
+        destruct args as [|a0 args]; [discriminate|].
+        inv_bind H. destruct a as [c sc1]. cbn [lets_list flat_map] in N1. rewrite in_app_iff in N1.
+        rewrite <- (Hev _ _ _ _ _ Ha) by tauto.
+        destruct c; try discriminate; injection H as _ <-; reflexivity.
+      * unfold call_go_func in H. inv_bind H. destruct a as [avs sc1]. inv_bind H. injection H as _ <-.
+        apply (seq_preserves _ _ _ _ _ Ha N1 N2).
   - (* EUn *)
     inv_bind H. destruct a as [v1 sc1]. cbn [lets] in N1.
     rewrite <- (Hev _ _ _ _ _ Ha N1 N2).
